@@ -7,7 +7,7 @@ BASE_WEIGHTS = {
     'CreateTrial': 4, 'SuggestTrials': 8, 'GetTrial': 1, 'ListTrials': 1,
     'AddTrialMeasurement': 4, 'CompleteTrial': 7, 'StopTrial': 3, 'DeleteTrial': 2,
     'CheckES': 2, 'UpdateMetadata': 4, 'ListOptimalTrials': 2, 'GetOperation': 1,
-    'Advance': 1, 'ClockFault': 1, 'M:es-recycle': 1, 'M:delete-recreate': 1, 'M:pool': 1,
+    'Advance': 1, 'ClockFault': 1, 'M:es-recycle': 1, 'M:delete-recreate': 1, 'M:pool': 1, 'M:es-delete-recreate': 1, 'M:huge-ties': 1,
 }
 
 TRIAL_PREFS = ['active', 'active', 'mutable', 'any', 'any', 'completed', 'requested',
@@ -42,6 +42,11 @@ def md_items(rng, allow_missing=True, n_ns=3):
   return items
 
 
+def _mval(rng, n):
+  """A metric value: small integers, sometimes huge ones (ties on 1e17 absorb small differences in sums)."""
+  return rng.choice([1e17, 1e17, 1e17, -1e17, 2.5e-9]) if rng.random() < 0.15 else rng.randrange(n)
+
+
 def gen_op(rng, kind, p):
   """One symbolic op of `kind`; p = profile dict (n_studies, workers, ...)."""
   ss = lambda: study_sel(rng, p.get('n_studies', 3), p.get('n_owners', 2), p.get('p_direct', 0.35))
@@ -60,7 +65,7 @@ def gen_op(rng, kind, p):
   if kind == 'CreateTrial':
     return [kind, {'study': ss(), 'x': rng.randrange(100),
                    'tkind': rng.choice(['plain', 'plain', 'succeeded', 'infeasible', 'active', 'rich']),
-                   'v': rng.randrange(6), 'w': rng.randrange(6), 'perm': rng.random() < 0.3}]
+                   'v': _mval(rng, 6), 'w': _mval(rng, 6), 'perm': rng.random() < 0.3}]
   if kind == 'SuggestTrials':
     return [kind, {'study': ss(), 'n': rng.choice([1, 1, 2, 2, 3, 4, 5, 5, 8, 12]),
                    'worker': rng.randrange(p.get('workers', 2))}]
@@ -73,7 +78,7 @@ def gen_op(rng, kind, p):
     return [kind, {'study': ss(), 'trial': trial_sel(rng),
                    'ckind': rng.choice(['final', 'final', 'final', 'auto', 'infeasible',
                                         'infeasible+final', 'partial-final']),
-                   'v': rng.randrange(6), 'w': rng.randrange(6), 'reason': rng.choice(['bad', 'bad', '']),
+                   'v': _mval(rng, 6), 'w': _mval(rng, 6), 'reason': rng.choice(['bad', 'bad', '']),
                    'perm': rng.random() < 0.3}]
   if kind == 'UpdateMetadata':
     return [kind, {'study': ss(), 'items': md_items(rng, p.get('md_missing', True))}]
@@ -130,6 +135,26 @@ def gen_macro(rng, kind, p):
             ['DeleteStudy', {'study': {'o': o, 'd': d}}],
             ['CreateStudy', {'o': o, 'd': d, 'state': 'ACTIVE'}],
             ['SuggestTrials', {'study': {'o': o, 'd': d}, 'n': rng.choice([1, 2]), 'worker': w}]]
+  if kind == 'M:es-delete-recreate':
+    # an early-stopping decision stored for the newest trial, the trial deleted, its id handed out again,
+    # and the question asked about the new trial inside the recycle period
+    ss = {'o': 0, 'd': 0}
+    w = rng.randrange(p.get('workers', 2))
+    return [['SuggestTrials', {'study': ss, 'n': 2, 'worker': w}],
+            ['CheckES', {'study': ss, 'trial': {'pref': 'max', 'i': 0}}],
+            ['DeleteTrial', {'study': ss, 'trial': {'pref': 'max', 'i': 0}}],
+            ['SuggestTrials', {'study': ss, 'n': 2, 'worker': w}],
+            ['CheckES', {'study': ss, 'trial': {'pref': 'max', 'i': 0}}]]
+  if kind == 'M:huge-ties':
+    # two trials tie on a huge value of one metric and differ a little on the other: the sums of their
+    # objectives are equal in floating point although one dominates the other
+    ss = {'o': 0, 'd': 0}
+    big = rng.choice([1e17, 1e17, -1e17, 3e16])
+    lo, hi = rng.sample(range(6), 2)
+    return [['SuggestTrials', {'study': ss, 'n': 2, 'worker': rng.randrange(p.get('workers', 2))}],
+            ['CompleteTrial', {'study': ss, 'trial': {'pref': 'active', 'i': 0}, 'ckind': 'final', 'v': big, 'w': hi, 'reason': 'bad'}],
+            ['CompleteTrial', {'study': ss, 'trial': {'pref': 'active', 'i': 0}, 'ckind': 'final', 'v': big, 'w': lo, 'reason': 'bad'}],
+            ['ListOptimalTrials', {'study': ss}]]
   if kind == 'M:pool':
     ss = {'o': 0, 'd': 0}
     return [['CreateTrial', {'study': ss, 'x': rng.randrange(100), 'tkind': 'plain'}],
